@@ -22,6 +22,11 @@ JudgeRead(rec) ==
           <<rec.all.ok => rec.all.paras = nx.paras, "All() sees a different sequence than Next">>,
           <<rec.slice.ok = (nx.end = "eof"), "Unmarshal(&slice) and the Next loop disagree on success">>,
           <<rec.slice.ok => rec.slice.paras = nx.paras, "Unmarshal(&slice) sees a different sequence">>,
+          \* the elements' typed fields A, B, C hold what THEIR paragraph says, and nothing when it does not list the field
+          <<(rec.slice.ok /\ "typed" \in DOMAIN rec.slice) =>
+                (Len(rec.slice.typed) = Len(rec.slice.paras) /\ \A k \in 1..Len(rec.slice.paras) : \A j \in 1..3 :
+                    rec.slice.typed[k][j] = (IF HasVal(rec.slice.paras[k], <<64 + j>>) THEN ValOf(rec.slice.paras[k], <<64 + j>>) ELSE <<>>)),
+            "an element of the slice holds a typed field value that its own paragraph does not have">>,
           <<rec.decode.end = nx.end /\ rec.decode.paras = nx.paras, "repeated Decode sees a different sequence">>,
           <<nx.nil_on_end, "a paragraph was returned together with an error">> >>)
 
@@ -110,7 +115,9 @@ JudgeFault(rec) ==
           <<Len(rec.errs) = Len(rec.in.paras), "missing steps">>,
           <<rec.fired => \E k \in 1..Len(rec.errs) : rec.errs[k] = TRUE, "the sink refused a write but every call reported success">>,
           <<~rec.fired => nOK = Len(rec.in.paras), "writing to a healthy sink failed">>,
-          <<r.wf => Len(r.paras) >= nOK, "fewer paragraphs reached the sink than were reported as written">> >>)
+          <<r.wf => Len(r.paras) >= nOK, "fewer paragraphs reached the sink than were reported as written">>,
+          <<(rec.in.paras # <<>> /\ Representable(rec.in.paras[1])) => (rec.after_ok /\ RefReadsBackAs(rec.after, rec.in.paras[1])),
+            "after a refused write, a later write of a paragraph to a healthy sink does not give that paragraph">> >>)
 
 \* structs through the Encoder: paragraph k holds Name (always) and Comment (when it has text), nothing else
 JudgeEncStructs(rec) ==
